@@ -106,6 +106,12 @@ def coq_step(pid, scratch):
     try:
         p = subprocess.run(cmd, cwd=P.COQ_DIR, stdout=subprocess.PIPE, stderr=subprocess.STDOUT,
                            timeout=900, text=True)
+        if p.returncode < 0:
+            # coqc was killed by a signal (another process's `pkill`, the OOM killer): not a verdict about the
+            # proof -- run it once more; a second failure is reported
+            res["log"] += "coqc killed by signal %d, retrying once\n" % -p.returncode
+            p = subprocess.run(cmd, cwd=P.COQ_DIR, stdout=subprocess.PIPE, stderr=subprocess.STDOUT,
+                               timeout=900, text=True)
     except subprocess.TimeoutExpired:
         res["problems"].append("coqc Properties/%s.v timed out" % pid)
         return res
